@@ -2360,7 +2360,7 @@ class SSHConnection(SSHPacketHandler, asyncio.Protocol):
                                packet: SSHPacket) -> None:
         """Process a key exchange request"""
 
-        if self._kex:
+        if self._kex or self._next_recv_encryption:
             raise ProtocolError('Key exchange already in progress')
 
         _ = packet.get_bytes(16)                        # cookie
